@@ -385,6 +385,22 @@ func c03Gen(tier string, rng *rand.Rand, emit func(interface{})) {
 		big[i] = 7.5
 	}
 	emit(c03Case{Runs: []mwRun{{EL: 50, TL: 25, X1: toF64s(big[:70]), X2: toF64s(big[:50]), Alts: allAlts}}})
+	// (z) LAST (the random stream of the blocks above stays what it was): signed zeros in the pool, -0.0 and
+	// +0.0 are the same number (seeded C03-8 class, see mwSignedZeros): pair count, ErrSamplesEqual "exactly
+	// when all pooled values are equal", swap, reorder and strictly increasing maps (c03Map sends the two
+	// zeros to one value or to two zeros again; next to denormals a map may merge neighbours - every run is
+	// compared with the model on its own values, so that only adds ties), under the default limits, no exact method and exact always
+	nZero := 24
+	if thorough {
+		nZero = 300
+	}
+	for i, pr := range mwSignedZeros(rng, nZero, 10) {
+		lims := []c03Limits{def, {0, 0}}
+		if i%3 == 0 {
+			lims = []c03Limits{def, {1000000, 1000000}}
+		}
+		emit(c03Family(rng, pr[0], pr[1], lims, true))
+	}
 }
 
 func init() { register(&Prop{ID: "C03", Num: 3, Gen: c03Gen, Run: c03Run}) }
